@@ -458,22 +458,23 @@ def loop_desc_in(evs, func, head):
     return d
 
 
-def cell_store_loops(ctx, sr):
+def cell_store_loops(ctx, sr, touch=False):
     """{(func, head): set of row descriptors} for loops (MIR loops that can only be left when the
     iterator is exhausted, and for_each-style closure loops) in which EVERY iteration stores a cell
     (map.insert at cell level on the grid) at the column given by the element of the unadapted range
     the loop iterates.  Row descriptor: 'cursor-row' (the cursor row at entry of the method) or
     ('elem', lo key, hi key, incl) (the element of an enclosing range loop)."""
-    if '_cell_store_loops' in sr:
-        return sr['_cell_store_loops']
+    ckey = '_cell_touch_loops' if touch else '_cell_store_loops'
+    if ckey in sr:
+        return sr[ckey]
     from .values import IterV
     prog = ctx.prog
     eng = sr['engine']
     by = {}
     for sg in sr['segments']:
-        by.setdefault((sg['func'], sg['head']), []).append(sg)
+        by.setdefault((sg['ep'], sg['func'], sg['head']), []).append(sg)
     out = {}
-    for (func, head), sgs in by.items():
+    for (epn_, func, head), sgs in by.items():
         body = prog.bodies.get(func)
         if body is None:
             continue
@@ -493,7 +494,7 @@ def cell_store_loops(ctx, sr):
                 break
             hit = False
             for ev in lev:
-                if ev[0] != 'map.insert' or not ev[1] or ev[1][0] != 'S' or len(ev[1]) != 3 or ev[1][1] != 'buffer':
+                if ev[0] not in (('map.insert', 'map.remove') if touch else ('map.insert',)) or not ev[1] or ev[1][0] != 'S' or len(ev[1]) != 3 or ev[1][1] != 'buffer':
                     continue
                 col = ev[2]
                 if not (isinstance(col, NumV) and col.sym is not None and col.k == 0):
@@ -517,8 +518,56 @@ def cell_store_loops(ctx, sr):
                 ok = False
                 break
         if ok and rows:
-            out[(func, head)] = rows
-    sr['_cell_store_loops'] = out
+            out[(epn_, func, head)] = rows
+    sr[ckey] = out
+    return out
+
+
+def row_touch_loops(ctx, sr):
+    """set of (entry point, func, head): loops (no early exit / for_each style) in which every
+    iteration inserts or removes the ROW whose key is the element of the range the loop iterates"""
+    if '_row_touch_loops' in sr:
+        return sr['_row_touch_loops']
+    from .values import IterV
+    prog = ctx.prog
+    by = {}
+    for sg in sr['segments']:
+        by.setdefault((sg['ep'], sg['func'], sg['head']), []).append(sg)
+    out = set()
+    for (epn_, func, head), sgs in by.items():
+        body = prog.bodies.get(func)
+        if body is None:
+            continue
+        if isinstance(head, int):
+            if not loop_exits_only_at_head(body, head):
+                continue
+        elif not (isinstance(head, tuple) and head and head[0] == 'for_each'):
+            continue
+        ok = True
+        for sg in sgs:
+            st = sg['st']
+            pre, lev = seg_events(dict(sg, kind='backedge'))
+            d = loop_desc_in(st.event_list(), func, head)
+            if d is None or d[0] != 'range' or not elementwise(d[4]) or not (isinstance(d[1], NumV) and isinstance(d[2], NumV)):
+                ok = False
+                break
+            hit = False
+            for ev in lev:
+                if ev[0] not in ('map.insert', 'map.remove') or not ev[1] or ev[1] != ('S', 'buffer'):
+                    continue
+                key = ev[2]
+                if not (isinstance(key, NumV) and key.sym is not None and key.k == 0):
+                    continue
+                it = st.vn.get(('itersym', key.sym))
+                if isinstance(it, IterV) and it.kind == 'range' and elementwise(tuple(o[0] for o in it.ops)) and isinstance(it.args[0], NumV) and isinstance(it.args[1], NumV) \
+                        and (it.args[0].key(), it.args[1].key(), bool(it.args[2])) == (d[1].key(), d[2].key(), bool(d[3])):
+                    hit = True
+            if not hit:
+                ok = False
+                break
+        if ok:
+            out.add((epn_, func, head))
+    sr['_row_touch_loops'] = out
     return out
 
 
